@@ -19,7 +19,9 @@ static void dm_run(Ctx& c) {
     else if (sc == 1) { stress = "bandwidth"; double sc_ = r.logu(10, 1e3); for (auto& o : m.ops) { if (o.kind == Op::RAW) o.raw.val *= sc_; else { o.v1 *= sc_; o.v2 *= sc_; o.v3 *= sc_; o.v4 *= sc_; } } }
     int pmode = (int)r.range(0, 2);
     Pipeline p; p.build_lattice(m);
-    CMat Href = p.ref_H(); RefED ed; ed.solve(Href);
+    CMat Href = p.ref_H();
+    if (r.coin(0.15)) { static const double cs[] = {7.0, -4.0, 1e3, 1e5}; double hc = cs[r.range(0, 3)]; *p.Storage += Pomerol::MelemType(hc); Href += hc * CMat::Identity(Href.rows(), Href.cols()); stress += "+constant"; }   // constant term in H: strictly positive (or very negative) spectrum
+    RefED ed; ed.solve(Href);
     if (ed.herm_defect() > 1e-12 * (1 + ed.hnorm)) { c.skipped = true; return; }
     std::vector<Pomerol::Operator> ioms; J iomdesc = J::arr();
     if (pmode == PM_CUSTOM) ioms = benign_ioms(r, p, Href, iomdesc);
